@@ -1016,6 +1016,7 @@ type c16StressObs struct {
 	Leak     int      `json:"leak"`
 	LeakInfo string   `json:"leak_info,omitempty"`
 	Panic    string   `json:"panic,omitempty"`
+	Setup    string   `json:"setup,omitempty"` // the plain handshake failed: nothing was exercised
 }
 
 // c16Stress: established connection, then Read, Write, Close, deadline setters and state
@@ -1057,7 +1058,17 @@ func c16Stress(t *testing.T, variant string, iter int, seed uint64) c16StressObs
 		synctest.Wait()
 	}
 	if hx.class() != "ok" || hp.class() != "ok" {
-		obs.Panic = "handshake did not complete: " + hx.class() + "/" + hp.class()
+		// not a lifecycle observation: the plain handshake of this variant fails on this tree
+		obs.Setup = "handshake did not complete: " + hx.class() + "/" + hp.class() + " " + hx.text() + " / " + hp.text()
+		_ = X.Conn.Close()
+		_ = P.Conn.Close()
+		close(stop)
+		<-pumpDone
+		_ = X.EP.Close()
+		_ = P.EP.Close()
+		synctest.Wait()
+
+		return obs
 	}
 	var calls []*c16Call
 	var mu sync.Mutex
